@@ -232,6 +232,44 @@ def make_case(ctx, g):
                 if len(vals) != 1:
                     fails.append(Failure("oracle", None, "%s(%s): prov:%s stated twice with one value holds %d values" % (how, kind, l, len(vals)),
                                          {"ops": list(w.ops)}))
+    # a relation that refers to relations: the generation / usage arguments of a derivation given as the records themselves,
+    # as their identifiers, as 'prefix:local' text -- the derivation holds the same two names whichever way
+    if g.chance(0.15) and scopes:
+        c = g.choice(scopes)
+        EXN = Namespace("ex", "http://example.org/")
+        k_ = g.rng.randint(0, 99)
+        gen_id, use_id = QualifiedName(EXN, "gen%d" % k_), QualifiedName(EXN, "use%d" % k_)
+        e2, e1, a_ = QualifiedName(EXN, "e2_%d" % k_), QualifiedName(EXN, "e1_%d" % k_), QualifiedName(EXN, "act%d" % k_)
+        hg, eg = w.new_record(c, "Generation", gen_id, [(PROV["entity"], e2), (PROV["activity"], a_)])
+        hu, eu = w.new_record(c, "Usage", use_id, [(PROV["activity"], a_), (PROV["entity"], e1)])
+        if hg is not None and hu is not None:
+            form = g.choice(["record", "qname", "text"])
+            garg = {"record": w.recs[hg], "qname": gen_id, "text": None}[form]
+            uarg = {"record": w.recs[hu], "qname": use_id, "text": None}[form]
+            if form == "text":
+                sg, su = str(w.recs[hg].identifier), str(w.recs[hu].identifier)
+                back = w.conts[c].valid_qualified_name(sg)
+                if back is not None and back.uri == gen_id.uri:       # the print form still denotes the name here (C03)
+                    garg, uarg = sg, su
+                else:
+                    garg, uarg, form = gen_id, use_id, "qname"
+            if g.chance(0.5):
+                hd, ed = w.factory(c, "derivation", None, [e2, e1, a_, garg, uarg], [])
+            else:
+                hd, ed = w.new_record(c, "Derivation", None, [(PROV["generatedEntity"], e2), (PROV["usedEntity"], e1), (PROV["activity"], a_),
+                                                             (PROV["generation"], garg), (PROV["usage"], uarg)])
+            flags.add("relation-refers-to-relation:" + form)
+            if hd is None:
+                fails.append(Failure("oracle", None, "a derivation whose generation / usage arguments are given as %s was refused (%r)" % (form, ed),
+                                     {"ops": list(w.ops)}))
+            else:
+                got_g = w.recs[hd].get_attribute(PROV["generation"])
+                got_u = w.recs[hd].get_attribute(PROV["usage"])
+                ok_ = (len(got_g) == 1 and len(got_u) == 1 and all(isinstance(x, QualifiedName) for x in list(got_g) + list(got_u))
+                       and list(got_g)[0].uri == gen_id.uri and list(got_u)[0].uri == use_id.uri)
+                if not ok_:
+                    fails.append(Failure("oracle", None, "generation / usage given as %s are stored as %r / %r" % (form, got_g, got_u),
+                                         {"ops": list(w.ops)}))
     # entry-path independence: typed literal vs direct value
     if g.chance(0.5) and scopes:
         c = g.choice(scopes)
